@@ -55,7 +55,8 @@ class Recording:
 # ------------------------------------------------------------------ pattern generators
 ATOMS = ['a', 'b', 'ab', '[ab]', '.', '\\d', 'x?', 'a*', '(?:ab)+', '', '\\b', '^', '$', '\\n', 'c', '[^a]', 'a|b', '\\w+', ' ',
          'a{2}', '(?=b)', '(?<!a)', 'é', '.*?', '\\s', '(?=(b))', '(?=(?P<la>a)(b)?)', '\\b(?=(\\w+))', '(?<=(a))', '(?=(x?))', 'A', '[A-Z]b',
-         '\\\\', "\\\\'", "'", '"', '\\\\(', "it's", '\\\\"', '\\A', '\\Z', '\\B', 'a??', '(?:\\b|ab)', 'a|ab', '\\d+?', '(?<=(?P<lb>a))b', '(?<=(?P<lb2>.))', '(?=(?P<la2>b))a?']
+         '\\\\', "\\\\'", "'", '"', '\\\\(', "it's", '\\\\"', '\\A', '\\Z', '\\B', 'a??', '(?:\\b|ab)', 'a|ab', '\\d+?', '(?<=(?P<lb>a))b', '(?<=(?P<lb2>.))', '(?=(?P<la2>b))a?', '(?:(a)|(b))+', '(?:(?P<r1>b)|(a)|c)*d?', '(?:(a)(b)?)+',
+         '\\\n', 'a\\\nb', '\\\t']
 
 
 def gen_pattern(rnd, sequential=False):
@@ -66,7 +67,7 @@ def gen_pattern(rnd, sequential=False):
     ngroups = 0
     for _ in range(rnd.choice([1, 2, 3, 4, 5])):
         a = rnd.choice(ATOMS)
-        if sequential and ('|' in a or '(?=' in a or '(?<' in a or '(?!' in a):
+        if sequential and ('|' in a or '(?=' in a or '(?<' in a or '(?!' in a or re.search(r'\((?!\?:)', a)):
             a = 'a'
         k = rnd.random()
         if ngroups >= 6:
@@ -124,6 +125,8 @@ DSL_OBJECTS = [
     lambda: Pregex("\\'") + QU.Optional(GR.Capture('q', 'qq')),
     lambda: GR.Capture(Pregex('\\')) + GR.Capture(QU.Indefinite(CL.AnyLetter()), 'w'),
     lambda: OP.Either(AS.MatchAtStart('id'), 'no'),
+    lambda: Pregex(re.escape('a\nb\tc'), escape=False) + GR.Capture(QU.Optional('d')),
+    lambda: QU.OneOrMore(OP.Either(GR.Capture('a'), GR.Capture('b', 'bb'))),
     lambda: OP.Either(GR.Capture('a'), AS.MatchAtLineEnd(GR.Capture('b', 'e'))),
     lambda: '<' + QU.OneOrMore(CL.Any()) + '>',
     lambda: GR.Capture(QU.OneOrMore(CL.Any(), is_greedy=False)) + AS.MatchAtLineEnd(Pregex()),
@@ -192,16 +195,58 @@ def exp_named_pos(ms, ie, rel):
 def exp_split_capture(ms, t, ie):
     pieces, idx = [], 0
     for m in ms:
-        for gi, g in enumerate(m.groups(), 1):
-            if g is None:
-                continue
-            if not ie and g == '':
-                continue
-            s, e = m.span(gi)
+        # captured spans in text order (group numbers follow the opening parentheses, not the positions:
+        # '(?:(a)|(b))+' on 'ba' captures group 2 before group 1)
+        spans = sorted(m.span(gi) for gi, g in enumerate(m.groups(), 1) if g is not None and (ie or g != ''))
+        for s, e in spans:
             pieces.append(t[idx:s])
             idx = e
     pieces.append(t[idx:])
     return pieces
+
+
+_FLAT = {}
+
+
+def is_flat(pat):
+    """True when no capturing group of the pattern lies inside another capturing group or inside a lookaround
+    (the patterns split_by_capture is specified for: "capturing groups do not nest")"""
+    if pat in _FLAT:
+        return _FLAT[pat]
+    import re._parser as sp
+    import re._constants as sc
+
+    def walk(items, inside):
+        for op, av in items:
+            if op is sc.SUBPATTERN:
+                gid, _, _, sub = av
+                if gid is not None and inside:
+                    return False
+                if not walk(sub, inside or gid is not None):
+                    return False
+            elif op in (sc.ASSERT, sc.ASSERT_NOT):
+                if not walk(av[1], True):
+                    return False
+            elif op is sc.BRANCH:
+                if not all(walk(b, inside) for b in av[1]):
+                    return False
+            elif op in (sc.MAX_REPEAT, sc.MIN_REPEAT, getattr(sc, 'POSSESSIVE_REPEAT', None)):
+                if not walk(av[2], inside):
+                    return False
+            elif op is sc.GROUPREF_EXISTS:
+                for b in av[1:]:
+                    if b is not None and not walk(b, inside):
+                        return False
+            elif op is getattr(sc, 'ATOMIC_GROUP', None):
+                if not walk(av, inside):
+                    return False
+        return True
+    try:
+        r = walk(sp.parse(pat, re.M | re.S), False)
+    except Exception:
+        r = False
+    _FLAT[pat] = r
+    return r
 
 
 def exp_replace(ms, t, repl, count):
@@ -298,7 +343,7 @@ def verify_c11(M, p, c, t, ctx):
 
 def verify_c12(M, p, c, t, ctx, tmpdir=None):
     ms = list(c.finditer(t))
-    if tmpdir is not None and '\r' not in t and M.nchecks % 5 == 0:
+    if tmpdir is not None and M.nchecks % 5 == 0:
         # the same extraction from a file source (the instance may hold a compiled pattern at this point)
         path = os.path.join(tmpdir, 'c12_%d.txt' % (M.nchecks % 7))
         with open(path, 'w', encoding='utf-8', newline='') as f:
@@ -349,16 +394,14 @@ def verify_c13(M, p, c, t, ctx, sequential):
         M.law(len(pieces) == len(ms) + 1, 'split_by_match', 'count', '%d pieces for %d matches' % (len(pieces), len(ms)), ctx, 'C13')
         rec = ''.join(a + b for a, b in zip(pieces, [m.group(0) for m in ms] + ['']))
         M.law(rec == t, 'split_by_match', 'rebuild', 'interleaving pieces and matches gives %r, source %r' % (rec, t), ctx, 'C13')
-    if sequential:
+    if sequential or is_flat(ctx['pat']):
         for ie in (True, False):
             o = M.call(p, 'split_by_capture', (t, ie), {}, exp_split_capture(ms, t, ie), ctx, 'C13')
             if o[0] == 'ok':
                 caps = []
                 for m in ms:
-                    for g in m.groups():
-                        if g is None or (not ie and g == ''):
-                            continue
-                        caps.append(g)
+                    for (s_, e_) in sorted(m.span(gi) for gi, g in enumerate(m.groups(), 1) if g is not None and (ie or g != '')):
+                        caps.append(t[s_:e_])
                 pieces = o[1]
                 M.law(len(pieces) == len(caps) + 1, 'split_by_capture', 'count', '%d pieces for %d captures' % (len(pieces), len(caps)), ctx, 'C13')
                 rec = ''.join(a + b for a, b in zip(pieces, caps + ['']))
@@ -604,8 +647,7 @@ def gen_case(rnd, check, tier, idx):
         if C.parse(pat).error:
             pat = 'a(b)?'
         case['pat'] = pat
-    # C14 compares with files read in text mode: universal newlines would turn '\r\n' and '\r' into '\n' (left open by the property)
-    case['texts'] = texts_for(pat, rnd, 3 if tier == 'quick' else 5, allow_cr=check != 'C14')
+    case['texts'] = texts_for(pat, rnd, 3 if tier == 'quick' else 5, allow_cr=True)
     if sequential or not re.search(r'[*+]\)[*+?{]|\)\+|\)\*', pat):
         if rnd.random() < 0.12:
             # a long text: positions beyond the small-int range, many matches
